@@ -6,7 +6,7 @@ violation: it widens the search (extra seeds for the random streams) and is reco
 evidence, so that an edit in a rarely exercised branch is met with more cases."""
 import hashlib, json, os, re, sys
 
-REPO = "/repo"
+REPO = os.environ.get("VERIF_REPO", "/repo")   # VERIF_REPO: machinery self-tests against a scratch copy (tools/rerun_seeds_bg.sh); registered checks never set it
 ROOT = os.path.dirname(os.path.dirname(os.path.abspath(__file__)))
 MODELLED = ["src/page.rs", "src/node.rs", "src/tree.rs", "src/node_iter.rs", "src/diff.rs",
             "src/diff/diff_builder.rs", "src/diff/range_list.rs", "src/diff/page_range.rs",
